@@ -159,3 +159,16 @@ MUTANTS += [
     ("c05_analytic_uses_Kx", "C05", "solver.py", "        tfftp[:, msk] = tfftq[:, msk] * Kzinv / eigval\n", "        tfftp[:, msk] = tfftq[:, msk] / Kx[nz - 1] / eigval\n"),
     ("c05_analytic_no_shift", "C05", "solver.py", "    # shift green function in Fourier space to measurement point\n    if footprint:\n", "    # shift green function in Fourier space to measurement point\n    if footprint and not analytic:\n"),
 ]
+
+MUTANTS += [
+    # ---- C01
+    ("c01_top_bc_from_bottom", "C01", "solver.py", "    Kzinv = 1.0 / Kz[nz - 1]\n    KxKzinv = Kx[nz - 1] * Kzinv\n    KyKzinv = Ky[nz - 1] * Kzinv\n", "    Kzinv = 1.0 / Kz[0]\n    KxKzinv = Kx[0] * Kzinv\n    KyKzinv = Ky[0] * Kzinv\n"),
+    ("c01_v_dropped", "C01", "solver.py", "        Ti = -(Kx[i] * Lx**2 + Ky[i] * Ly**2) - 1j * u[i] * Lx - 1j * v[i] * Ly\n", "        Ti = -(Kx[i] * Lx**2 + Ky[i] * Ly**2) - 1j * u[i] * Lx\n"),
+    ("c01_ky_is_kx_eig", "C01", "solver.py", "    KyKzinv = Ky[nz - 1] * Kzinv\n", "    KyKzinv = Kx[nz - 1] * Kzinv\n"),
+    ("c01_dz0_everywhere", "C01", "solver.py", "        dzi = dz[i]\n", "        dzi = dz[0]\n"),
+    ("c01_advection_sign", "C01", "solver.py", "        Ti = -(Kx[i] * Lx**2 + Ky[i] * Ly**2) - 1j * u[i] * Lx - 1j * v[i] * Ly\n", "        Ti = -(Kx[i] * Lx**2 + Ky[i] * Ly**2) + 1j * u[i] * Lx + 1j * v[i] * Ly\n"),
+    # c01_alpha_top_Kz (Kz[nz-2] in the top condition) is first-order consistent: it converges, and correctly passes
+    ("c01_Kz_mid_skipped", "C01", "solver.py", "        Kzinv = 1.0 / Kz[i]\n        dzi = dz[i]\n", "        Kzinv = 1.0 / Kz[min(i, nz // 2)]\n        dzi = dz[i]\n"),
+    ("c01_top_wind_zero", "C01", "solver.py", "        + 1j * u[nz - 1] * Kzinv * Lx[msk]\n", "        + 1j * u[0] * Kzinv * Lx[msk]\n"),
+    ("c01_top_bc_dirichlet", "C01", "solver.py", "        alpha = -(tfftq2 - Kz[nz - 1] * eigval * tfftp2) / (\n            tfftq1 - Kz[nz - 1] * eigval * tfftp1\n        )", "        alpha = -(tfftp2) / (\n            tfftp1\n        )"),
+]
